@@ -130,6 +130,14 @@ def run(ck):
                 src = ast.unparse(prog.method(cls, "load").node)
                 restores = [p for p in paths if p.outcome == "return" and any(e.kind == "setattr" and e.detail == "unitary_dict" for e in p.effects)]
                 ck.check(bool(restores), "C11.R3", cls + ".load:unitary_dict restored", lsite, "load never assigns the stored unitary dictionary to the state")
+                # ... on EVERY path on which the file holds one: the only reason not to assign is a membership test that found none
+                for p in paths:
+                    if p.outcome != "return" or any(e.kind == "setattr" and e.detail == "unitary_dict" for e in p.effects):
+                        continue
+                    absent = [c for c in p.conds if len(c) > 3 and isinstance(c[3], VUnknown) and c[3].tag == "in" and c[2] is False]
+                    ck.check(bool(absent), "C11.R3", cls + ".load:unitary_dict restored whenever the file has one/" + _c(p), lsite,
+                             "on this path load() leaves the model's own unitary dictionary in place although the file holds one (%s): a saved dictionary with the same names but other matrices "
+                             "(a user-redefined X) is not restored" % ", ".join("%s=%s" % (c[1][:40], c[2]) for c in p.conds)[:200], key="C11.R3|%s.load|unitary_dict kept" % cls)
         asite = prog.method(cls, "autoload").site()
         with ck.guard("C11.R3", cls + ".autoload", asite):
             af = prog.cls(cls).find_method("autoload")
